@@ -96,7 +96,7 @@ pub fn reconstruct(sc: &Scenario, run: &RunLog) -> Vec<Search> {
                     }
                 }
             }
-            Ev::Deliver { t, src, dst, bytes, dst_kind: EpKind::Real, .. } => {
+            Ev::Deliver { t, src, dst, bytes, dst_kind: EpKind::Real, corrupted, .. } => {
                 if let Some(ni) = addr_of.iter().position(|a| a == dst) {
                     let cut = &bytes[..bytes.len().min(1500)];
                     if let Some(m) = Msg::parse_lenient(cut) {
@@ -116,6 +116,10 @@ pub fn reconstruct(sc: &Scenario, run: &RunLog) -> Vec<Search> {
                                     } else {
                                         2
                                     };
+                                    // a datagram corrupted in flight may or may not have been decodable
+                                    // for the node (the oracle's parser is deliberately more lenient):
+                                    // it may have been accepted, and it may have left its id outstanding
+                                    let class = if *corrupted && class == 2 { 1 } else { class };
                                     s.resps.push(Resp {
                                         t: *t,
                                         tid: m.t.clone(),
